@@ -1003,6 +1003,9 @@ TRUSTED = [
     "says about the isinstance class tuples, guard operators, filter polarity, allocator, output dimensions, keyword "
     "defaults and exception classes; Skel.v/Tie.v (proved) connect these values to Model.v; everything else of the "
     "function bodies is hand-modelled",
+    "observed by the harness, not in Coq: 'yields a NEW array' (np.shares_memory monitor; combine_fields of a one-element "
+    "list returns that array itself and is not demanded to be a copy) and 'zero-filled' (buffers of the output's size filled "
+    "with 0xAB are released before every allocating call, so an uninitialised output shows)",
     "python harness (harness/props/C07.py), literal printers (hex bytes, type strings), coqc evaluating Exec.v verdict terms",
 ]
 
@@ -1015,7 +1018,9 @@ def run(ctx, replay=None):
                 "non-prefix subset; add: accepted, >= 2 old fields, defaults or a sub-array/big-endian new field; combine: >= 2 "
                 "arrays and (rejected, or not 1-d, or a sub-array/big-endian field); copy_fields: accepted with some but not all "
                 "fields common and >= 2 elements; copy_fields_by_name: some but not all fields named; compare_arrays: >= 2 "
-                "fields and >= 2 elements.  distinct by canonical JSON.")
+                "fields and >= 2 elements; split_fields on a field-less array: never counted (outside the statement).  inputs "
+                "also as F-ordered, strided and recarray views; strict= / ignore_missing= left out in part of the calls "
+                "(documented defaults).  distinct by canonical JSON.")
     ctx.trusted = TRUSTED
     # 1. structural parameters of the nine functions from the source of the tree under check
     try:
